@@ -1,6 +1,7 @@
 """MK rules: who receives what (MK3, MK4, NR1) -- properties C19, C07.  The masking rules proper
 (MK1, MK2) live in rules_pai.py because they need the protocol abstract interpreter."""
 import ast
+import copy
 
 from .core import AnalysisError, iter_nodes, norm, cnorm, cnorm_text
 from . import astq
@@ -324,3 +325,145 @@ def rule_NR1(ctx, rep):
                         '(transfer with an int sender and a receiver subset)')
     if n == 0:
         rep.ok('NR1', ft, 'no constant indexing of the result list', '', ft.node)
+
+
+# ---------------------------------------------------------------------------------- RB1
+def _bool_eval(t, val):
+    """truth of a test under a valuation of plain names (None = not determined)"""
+    if isinstance(t, ast.Name):
+        return val.get(t.id)
+    if isinstance(t, ast.UnaryOp) and isinstance(t.op, ast.Not):
+        v = _bool_eval(t.operand, val)
+        return None if v is None else not v
+    if isinstance(t, ast.BoolOp):
+        vs = [_bool_eval(v, val) for v in t.values]
+        if isinstance(t.op, ast.And):
+            return False if any(v is False for v in vs) else (None if any(v is None for v in vs) else True)
+        return True if any(v is True for v in vs) else (None if any(v is None for v in vs) else False)
+    if isinstance(t, ast.Constant) and isinstance(t.value, bool):
+        return t.value
+    return None
+
+
+class _IntOfTest(ast.NodeTransformer):
+    """int(<test over flags>) -> 0 / 1 under a valuation of the flags"""
+    def __init__(self, val):
+        self.val, self.failed = val, False
+
+    def visit_Call(self, n):
+        if isinstance(n.func, ast.Name) and n.func.id == 'int' and len(n.args) == 1 and not n.keywords:
+            v = _bool_eval(n.args[0], self.val)
+            if v is None:
+                self.failed = True
+                return n
+            return ast.Constant(value=int(v))
+        return self.generic_visit(n)
+
+    def visit_IfExp(self, n):
+        v = _bool_eval(n.test, self.val)
+        if v is None:
+            self.failed = True
+            return n
+        return self.visit(n.body if v else n.orelse)
+
+
+def rule_RB1(ctx, rep, scope=None):
+    """a buffer of N fresh random bits is never over-subscribed: when a protocol takes a head part `B[:J]` and a tail part `B[-K:]`
+    of the same buffer for different purposes (bits of the mask / sign mask), J + K <= N for every valuation of the flags that
+    select the parts -- otherwise one secret random bit masks two different values."""
+    import itertools
+    from . import routes
+    from .astq import reaching_definitions, enclosing_ifs
+    from .linform import to_poly, poly_sub
+    n_sites = 0
+    for key, fn in sorted(ctx.model.funcs.items()):
+        if not key.startswith('runtime::Runtime.') or (scope and fn.name not in scope):
+            continue
+        pm = parents(fn.node)
+        draws = [s for s in iter_nodes(fn.node) if isinstance(s, ast.Assign) and len(s.targets) == 1 and isinstance(s.targets[0], ast.Name)
+                 and any(isinstance(c, ast.Call) and attr_tail(c.func) in ('random_bits', 'np_random_bits') and len(c.args) >= 2 for c in ast.walk(s.value))]
+        for d in draws:
+            call = next(c for c in ast.walk(d.value) if isinstance(c, ast.Call) and attr_tail(c.func) in ('random_bits', 'np_random_bits') and len(c.args) >= 2)
+            # the buffer under its successive names: B = draw; B = (await B).value; B = await B (same bits)
+            same = {id(d)}
+            nm = d.targets[0].id
+            for s in iter_nodes(fn.node):
+                if isinstance(s, ast.Assign) and len(s.targets) == 1 and isinstance(s.targets[0], ast.Name) and s.targets[0].id == nm:
+                    v = s.value
+                    while isinstance(v, (ast.Await, ast.Attribute)) or isinstance(v, ast.Call) and isinstance(v.func, ast.Attribute) and v.func.attr in ('copy',):
+                        v = v.value if not isinstance(v, ast.Call) else v.func.value
+                    if isinstance(v, ast.Name) and v.id == nm and any(id(x[0]) in same for x in reaching_definitions(fn.node, nm, s, pm)):
+                        same.add(id(s))
+            heads, tails, rests = [], [], []
+            for x in iter_nodes(fn.node):
+                if isinstance(x, ast.Subscript) and isinstance(x.value, ast.Name) and x.value.id == nm and isinstance(x.slice, ast.Slice) and x.slice.step is None:
+                    st = astq.enclosing_stmt(x, pm)
+                    rd = reaching_definitions(fn.node, nm, st, pm)
+                    if not rd or not all(id(r[0]) in same for r in rd):
+                        continue
+                    lo, hi = x.slice.lower, x.slice.upper
+                    if lo is None and hi is not None and not (isinstance(hi, ast.UnaryOp) and isinstance(hi.op, ast.USub)):
+                        heads.append((x, hi))
+                    elif hi is None and isinstance(lo, ast.UnaryOp) and isinstance(lo.op, ast.USub):
+                        tails.append((x, lo.operand))
+                    elif hi is None and lo is not None:
+                        rests.append((x, lo))
+            if not (heads and (tails or rests)):
+                continue
+            n_sites += 1
+            N = call.args[1]      # (sizes are compared as written: the names in them must mean the same at the draw and at the parts)
+            for _ in range(3):    # a size named first: n_bits = ..; draw(n_bits)
+                if isinstance(N, ast.Name):
+                    rd_ = reaching_definitions(fn.node, N.id, d, pm)
+                    if len(rd_) == 1 and rd_[0][2] == 'assign' and rd_[0][1] is not None:
+                        N = rd_[0][1]
+            flags = sorted({x.id for c in ast.walk(N) if isinstance(c, ast.Call) and isinstance(c.func, ast.Name) and c.func.id == 'int' for x in ast.walk(c.args[0]) if isinstance(x, ast.Name)}
+                           | {x.id for c in ast.walk(N) if isinstance(c, ast.IfExp) for x in ast.walk(c.test) if isinstance(x, ast.Name)}
+                           | {x.id for s_, _e in heads + tails + rests for i_, _br in enclosing_ifs(s_, pm) for x in ast.walk(i_.test) if isinstance(x, ast.Name) and isinstance(i_.test, (ast.Name, ast.UnaryOp, ast.BoolOp))})
+            bad = None
+            undecided = False
+            for vals in itertools.product((False, True), repeat=len(flags)):
+                val = dict(zip(flags, vals))
+                tr = _IntOfTest(val)
+                Nv = to_poly(tr.visit(copy.deepcopy(N)))
+                if tr.failed or Nv is None:
+                    undecided = True
+                    break
+
+                def live(site):
+                    for i_, br in enclosing_ifs(site, pm):
+                        v = _bool_eval(i_.test, val)
+                        if v is not None and v != (br == 'body'):
+                            return False
+                    return True
+                for (hs, he), (ts, te) in itertools.product(heads, tails):
+                    if not (live(hs) and live(ts)):
+                        continue
+                    hp, tp = to_poly(he), to_poly(te)
+                    stable = all({id(r[0]) for r in reaching_definitions(fn.node, v_, d, pm)} == {id(r[0]) for r in reaching_definitions(fn.node, v_, astq.enclosing_stmt(site_, pm), pm)}
+                                 for site_, e_ in ((hs, he), (ts, te)) for v_ in {x.id for x in ast.walk(e_) if isinstance(x, ast.Name)})
+                    if hp is None or tp is None or not stable:
+                        undecided = True
+                        continue
+                    rest = poly_sub(poly_sub(Nv, hp), tp)
+                    if any(c < 0 for c in rest.values()):
+                        bad = (hs, ts, val, norm(he), '-' + norm(te))
+                # a part `B[J2:]` taking the rest starts behind every head part
+                for (hs, he), (ts, te) in itertools.product(heads, rests):
+                    if not (live(hs) and live(ts)):
+                        continue
+                    hp, tp = to_poly(he), to_poly(te)
+                    if hp is None or tp is None:
+                        undecided = True
+                        continue
+                    if any(c < 0 for c in poly_sub(tp, hp).values()):
+                        bad = (hs, ts, val, norm(he), norm(te))
+            if bad:
+                rep.bad('RB1', fn, bad[1], f'{norm(call)} draws {norm(N)} bits, but with {bad[2]} the head part [:{bad[3]}] and the tail part [{bad[4]}:] together need more: '
+                        'the two parts overlap, so the same secret random bit masks two different values (what is opened with the one reveals the other)')
+            elif undecided:
+                rep.skip('RB1', fn, d, 'sizes of the parts of the random-bit buffer not polynomial in the recognised form')
+            else:
+                rep.ok('RB1', fn, d, f'head and tail parts of the {norm(N)} drawn bits are disjoint for every valuation of {flags}')
+    if n_sites == 0:
+        raise AnalysisError('RB1: no random-bit buffer that is split into a head and a tail part was found (np_sgn)')
